@@ -34,6 +34,7 @@ import itertools
 import re
 from fractions import Fraction
 
+import json
 from lib.core import Ctx, enc, rat
 from lib import stage
 
@@ -858,7 +859,11 @@ def run_e2e(spec):
     import io
     with contextlib.redirect_stdout(io.StringIO()):     # the contexts print statistics from __del__
         # -M: an incomplete trailing group makes the collective-based rank alignment refuse the input
-        res = stage.e2e(["--flow", "--freq", "512"] + (["-M"] if spec.get("trunc") else []), e2e_files(spec))
+        # the statement holds for every other switch: vary switches that register further stages around the flow
+        # stages (derived from the scenario so that a case replays identically); -F keeps every event type here
+        extra = [[], [], ["-F", "XsfCM"], ["-t"], ["--keep_prep"], ["--drop_globals"], ["-F", "XsfCM", "-t"]][
+            len(json.dumps(spec, sort_keys=True)) % 7]
+        res = stage.e2e(["--flow", "--freq", "512"] + (["-M"] if spec.get("trunc") else []) + extra, e2e_files(spec))
         gc.collect()
     return res
 
